@@ -25,6 +25,7 @@ fn main() {
         for e in sweep::scan_repo() {
             println!("{}::{} {:?}{}{}", e.contract, e.name, e.types, if e.unlisted { " UNLISTED" } else { "" }, if e.types.iter().all(|t| sweep::probeable(t)) { "" } else { " (not swept: argument type without a generator)" });
         }
+        println!("storage key names: {:?}", sweep::scan_key_names());
         return;
     }
     if args[0] == "--fuzz-roundtrip" {
